@@ -290,7 +290,10 @@ class Term:
         """True if the call's callee key (declared or resolved) ends with one of names."""
         if self.t != "call" or not self.callee:
             return False
-        for k in (self.tkey, self.ckey):
+        keys = [self.tkey, self.ckey]
+        if self.ckey == "core::mem::take" and (self.gargs or "").startswith("[core::option::Option<"):
+            keys.append("core::option::Option::take")        # mem::take(&mut opt) is opt.take()
+        for k in keys:
             for n in names:
                 if k == n or k.endswith("::" + n) or k.endswith(n):
                     return True
